@@ -1130,6 +1130,40 @@ def slow_gain(ctx):
 
 
 
+def method_names(ctx, cases):
+    """`solve(method=name)`: the eight accepted names select the four methods, anything else raises ValueError"""
+    from quantecon.markov import DiscreteDP
+    rng = ctx.rng
+    R = np.array([[5.0, 10.0], [-1.0, -np.inf]])
+    Q = np.array([[[0.5, 0.5], [0.0, 1.0]], [[0.0, 1.0], [0.5, 0.5]]])
+    ddp = DiscreteDP(R, Q, 0.5)
+    long_of = {"value iteration": "vi", "policy iteration": "pi", "modified policy iteration": "mpi",
+               "linear programming": "lp"}
+    valid = ["value_iteration", "vi", "policy_iteration", "pi", "modified_policy_iteration", "mpi",
+             "linear_programming", "lp"]
+    malformed = ["", "VI", "Pi", "value iteration", "policy-iteration", "lp ", " vi", "howard", "simplex", "mpi2",
+                 "valueiteration", "LP", "policy_iteration_", "v", "modified_policy"]
+    letters = "vipmlo_"
+    for _ in range(ctx.n(10, 60)):
+        malformed.append("".join(rng.choice(letters) for _ in range(rng.randint(1, 4))))
+    for name in valid + malformed:
+        try:
+            res = ddp.solve(method=name)
+            got = long_of.get(res.method, "?:" + str(res.method))
+        except ValueError:
+            got = "ERR:ValueError"
+        if name in valid:
+            ctx.count("method-name:valid")
+            want = {"value_iteration": "vi", "policy_iteration": "pi", "modified_policy_iteration": "mpi",
+                    "linear_programming": "lp"}.get(name, name)
+            if got != want:
+                ctx.spec_fail("solve_method_name", "solve(method=%r) ran %s" % (name, got), {"method": name, "got": got})
+        else:
+            ctx.count("method-name:%s" % ("rejected" if got == "ERR:ValueError" else "accepted-nonstandard"))
+        cases.append(Case("C01 method hex=%s" % name.encode("ascii").hex(), got, nontrivial=False, tag="method-name"))
+
+
+
 def run(ctx):
     warnings.simplefilter("ignore")
     rng = ctx.rng
@@ -1418,6 +1452,7 @@ def run(ctx):
                                   tag="err:no-action"))
                 ctx.count("err:no-feasible-action")
 
+    method_names(ctx, cases)
     argument_forms(ctx)
     histories(ctx)
     caller_arrays(ctx)
